@@ -12,6 +12,19 @@ from common import Result, rng_for
 from findings import classify_c01
 
 CORPUS = [
+    # the only matching member of `contains` is a FALSY value (0, "", null, false, [], {}) - and the falsy keyword values themselves
+    ({"contains": {"type": "integer"}}, [[0], ["a", 0], [0.0], [], ["a"]]),
+    ({"contains": {"type": "null"}}, [[None], [0], [False]]),
+    ({"contains": True}, [[None], [0], [""], [[]], [{}], []]),
+    ({"not": {"contains": {"const": ""}}}, [[""], ["a"], [0]]),
+    ({"contains": {"enum": [False, [], {}]}}, [[False], [[]], [{}], [0], [None]]),
+    ({"type": "array", "items": {"type": "boolean"}, "contains": {"const": False}}, [[False], [True], [False, True]]),
+    ({"minimum": 0, "maximum": 0}, [-1, 0, 1, 0.5, -0.0]), ({"exclusiveMinimum": 0}, [0, 1, -1]), ({"exclusiveMaximum": 0}, [0, 1, -1]),
+    ({"maxItems": 0}, [[], [1]]), ({"maxLength": 0}, ["", "a"]), ({"maxProperties": 0}, [{}, {"a": 1}]), ({"minItems": 0, "minLength": 0, "minProperties": 0}, [[], "", {}]),
+    ({"const": 0}, [0, False, 1, None, 0.0]), ({"const": False}, [False, 0, None]), ({"const": None}, [None, 0, False, ""]), ({"const": ""}, ["", 0, None]),
+    ({"const": []}, [[], 0, None, {}]), ({"const": {}}, [{}, [], None]), ({"enum": [0]}, [0, False, 1]), ({"enum": []}, [0, None]),
+    ({"contains": False}, [[1], []]), ({"propertyNames": False}, [{"a": 1}, {}]), ({"multipleOf": 0.5}, [1, 0.25]), ({"uniqueItems": False}, [[1, 1]]),
+    ({"type": "object", "title": "Z", "required": [], "properties": {"a": {"const": 0}, "b": {"maximum": 0}}}, [{"a": 0}, {"a": 1}, {"b": 1}, {"b": 0}]),
     # keywords parsed once, then re-visited because of a sibling composition keyword / type list
     ({"dependencies": {"a": {"required": ["b"]}, "c": False}, "not": {"type": "string"}}, [{"a": 1}, {"a": 1, "b": 2}, {"c": 1}, {}, "s"]),
     ({"type": ["object", "array"], "title": "D", "dependencies": {"a": {"minProperties": 2}}, "items": {"type": "integer"},
